@@ -55,12 +55,13 @@ class SeriesStubs:
         return ca.Function("series_args", list(ins) + [ca.vertcat(*self.coef_syms())],
                            [ca.vertcat(*[c[2] for c in self.calls])])
 
-    def bind(self, ctx, in_vals, ins_sx):
+    def bind(self, ctx, in_vals, ins_sx, derivatives=False):
         """Val of every coefficient = oracle function of the recorded argument (x > 0 resolved via
         the ctx tables).  Returns list of Vals in call order."""
         coefs = []
+        dcoefs = []
         if not self.calls:
-            return coefs
+            return (coefs, dcoefs) if derivatives else coefs
         # arguments may (rarely) depend on earlier coefficients; evaluate sequentially
         for k, (key, squared, arg, sym) in enumerate(self.calls):
             prev = self.coef_syms()[:k]
@@ -82,5 +83,13 @@ class SeriesStubs:
                 s = c = None
             else:
                 s, c = ctx.sin(x), ctx.cos(x)
-            coefs.append(series_oracle(key, x, s, c, tan4=tan4, atan_x=atan_x))
+            if derivatives:
+                from .oracles import series_oracle_with_derivative
+                v, d = series_oracle_with_derivative(key, x, s, c, tan4=tan4, atan_x=atan_x, squared=squared)
+                coefs.append(v)
+                dcoefs.append(d)
+            else:
+                coefs.append(series_oracle(key, x, s, c, tan4=tan4, atan_x=atan_x))
+        if derivatives:
+            return coefs, dcoefs
         return coefs
